@@ -9,6 +9,8 @@
 -/
 import LiteFSVerif.Proofs.Image
 import LiteFSVerif.Proofs.Engine
+import LiteFSVerif.Proofs.Log
+import LiteFSVerif.Proofs.Wal
 
 set_option linter.unusedSimpArgs false
 
@@ -89,5 +91,44 @@ theorem C03_lost_authority (s s' : Eng) (hw : s.writeable = false) (h : commitWA
 
 /-! ### non-vacuity: repeated page within a transaction (last frame wins), shrink -/
 example : apply [10, 20, 30, 40] (capture [11, 21] [1, 2, 1] 7 7 0 0) = [11, 21] := by decide
+
+/-- engine (WAL mode): a WAL commit that finds a complete transaction after the current WAL
+    offset publishes one file whose pages are, in increasing page order, the bytes of the last
+    frame of each page inside that transaction (the lock page left out), whose size is the commit
+    frame's page count, and whose WAL range starts at the previous offset; a commit that finds no
+    complete transaction leaves the state as it is (`hne` excludes exactly that case) -/
+theorem C03_commit_captures_frames (s s' : Eng) (h : commitWALBody s = .ok s') (hne : s' ≠ s) :
+    ∃ (wal : ByteArray) (tx : Sqlite.TxFrames) (lock : Nat) (f : LTXFile), s.wal = some wal ∧
+      Sqlite.buildTxFrames wal s.pageSize s.w.offset s.w.bo s.w.salt1 s.w.salt2 s.w.chk1 s.w.chk2 = .ok (some tx) ∧
+      Cks.lockPgno s.pageSize = .ok lock ∧ s'.ltx = addLTX s.ltx f ∧ f.commit = tx.commit ∧
+      f.walOffset = s.w.offset ∧ f.walOffset + f.walSize = tx.endOffset + (s.w.offset - tx.endOffset) ∧
+      f.pages = ((sortNat (tx.offsets.map (·.1))).filter (· ≠ lock)).map
+        (fun p => (p, wal.extract ((tx.offsets.lookup p).getD 0 + 24) ((tx.offsets.lookup p).getD 0 + 24 + s.pageSize))) :=
+  commitWAL_captures s s' h hne
+
+/-- WAL scan (`buildTxFrameOffsets`): the transaction found is exactly the next one in the WAL —
+    `k ≥ 1` consecutive frames from the current offset, inside the file, with the WAL's salts,
+    of which only the last is a commit frame — and a page is in the offset map iff one of those
+    frames carries it, mapped to the *last* such frame.  With `C03_commit_captures_frames`:
+    the published file holds, for every page SQLite wrote in the transaction, the final bytes it
+    wrote, and nothing from a later (uncommitted or partial) transaction. -/
+theorem C03_scan_is_next_transaction (w : ByteArray) (ps off : Nat) (bo : Option Bool) (s1 s2 c1 c2 : Nat)
+    (tx : Sqlite.TxFrames) (h : Sqlite.buildTxFrames w ps off bo s1 s2 c1 c2 = .ok (some tx)) :
+    ∃ k, 1 ≤ k ∧ tx.endOffset = off + k * (24 + ps) ∧ tx.endOffset ≤ w.size ∧
+      tx.commit = BA.be32 w (off + (k - 1) * (24 + ps) + 4) ∧ tx.commit ≠ 0 ∧
+      (∀ j, j < k - 1 → BA.be32 w (off + j * (24 + ps) + 4) = 0) ∧
+      (∀ j, j < k → BA.be32 w (off + j * (24 + ps) + 8) = s1 ∧ BA.be32 w (off + j * (24 + ps) + 12) = s2) ∧
+      (∀ p o, tx.offsets.lookup p = some o →
+        ∃ j, j < k ∧ o = off + j * (24 + ps) ∧ BA.be32 w o = p ∧
+          ∀ j', j < j' → j' < k → BA.be32 w (off + j' * (24 + ps)) ≠ p) ∧
+      (∀ p, tx.offsets.lookup p = none → ∀ j, j < k → BA.be32 w (off + j * (24 + ps)) ≠ p) := by
+  obtain ⟨k, h1, h2, h3, h4, h5, h6, h7, h8⟩ := Sqlite.buildTxFrames_spec w ps off bo s1 s2 c1 c2 tx h
+  refine ⟨k, h1, h2, h3, h4, h5, h6, h7, ?_, ?_⟩
+  · intro p o hp
+    rw [h8] at hp
+    exact Sqlite.lastFrame_some w off (24 + ps) k p o hp
+  · intro p hp
+    rw [h8] at hp
+    exact Sqlite.lastFrame_none w off (24 + ps) k p hp
 
 end LiteFSVerif.C03
